@@ -20,6 +20,10 @@ def scratch_dir(name=None):
 # the tool as a real process, in one of several ordinary environments
 # ---------------------------------------------------------------------------
 PROC_VARIANTS = ['plain', 'posix', 'opt', 'module', 'elsewhere', 'relative', 'tofile', 'nohome', 'tty_less']
+# the order in which cases are dealt the environments: -O (no assert statements) is the one the statements name,
+# and the one most deployments differ in - it gets every third turn
+PROC_ROTATION = ['plain', 'opt', 'posix', 'module', 'opt', 'elsewhere', 'relative', 'opt', 'tofile', 'nohome', 'opt',
+                 'tty_less']
 _proc_variant = None
 PROC_COUNTS = {}
 
